@@ -100,6 +100,9 @@ Callbacks ==
   \E g \in Gs :
     \/ ObsPubStart(g) \/ ObsPubDone(g)
     \/ \E h \in {"before", "beforeCtx"} : HookBefore(g, h)
+    \/ ObsPersistStart(g) \/ PersistErrH(g)
+    \/ \E ok \in BOOLEAN : StoreAppend(g, ok) /\ ~(Mutant = "livectxonly" /\ IsCancelled(Top(g).ctx))
+    \/ /\ PubAt(g, "pers1") /\ ObsPersistDone(g, ~Top(g).pok)
     \/ \E h \in {"after", "afterCtx"} : HookAfter(g, h)
     \/ /\ PubAt(g, "filter")
        /\ LET r == Top(g).snap[Top(g).i] IN Filter(g, r, Top(g).val \in attr[r].accept)
@@ -143,7 +146,17 @@ MutClaimFirst(g) ==
        /\ fired' = fired \cup {r}
        /\ SetTop(g, [f EXCEPT !.pc = "dispatch", !.retire = @ \cup {r}, !.claimed = @ \cup {r}])
   /\ UNCHANGED <<cfg, reg, attr, seqHolder, cancelled, closed, pubs, npub, gh>>
-Mutants == \E g \in Gs : MutSnapshotLive(g) \/ MutClaimRacy(g) \/ MutWaitEarly(g) \/ MutClaimFirst(g)
+\* "livectxonly": a publish whose context is already cancelled skips the append
+MutLiveCtxOnly(g) ==
+  /\ Mutant = "livectxonly" /\ PubAt(g, "append") /\ IsCancelled(Top(g).ctx)
+  /\ SetTop(g, [Top(g) EXCEPT !.pc = "snap"])
+  /\ UNCHANGED <<cfg, reg, attr, fired, seqHolder, cancelled, closed, pubs, npub, gh>>
+\* "retry": a failed append is attempted again
+MutRetry(g) ==
+  /\ Mutant = "retry" /\ PubAt(g, "snap") /\ ~Top(g).pok
+  /\ SetTop(g, [Top(g) EXCEPT !.pc = "append"])
+  /\ UNCHANGED <<cfg, reg, attr, fired, seqHolder, cancelled, closed, pubs, npub, gh>>
+Mutants == \E g \in Gs : MutSnapshotLive(g) \/ MutClaimRacy(g) \/ MutWaitEarly(g) \/ MutClaimFirst(g) \/ MutLiveCtxOnly(g) \/ MutRetry(g)
 
 Internal == \E g \in Gs : InternalStep(g) \/ TaskSkip(g)
 
